@@ -273,7 +273,9 @@ def run(program, rep, tier):
 
 def check_static_build(program, rep, rule):
     """get_static_map stores the handle objects themselves under their keys
-    and lists exactly the handle keys in _handle_names."""
+    and lists exactly the handle keys in _handle_names (path based on the
+    generated class's __init__, aliases resolved)."""
+    from dlint.model import FuncInfo
     f = program.method('ResourceMap', 'get_static_map', inherited=False)
     site = f.where
     inits = [n for n in ast.walk(f.node) if isinstance(n, ast.FunctionDef)
@@ -284,17 +286,34 @@ def check_static_build(program, rep, rule):
         return
     init = inits[0]
     sub = init.args.args[0].arg
-    ok_h = False
-    for lp in ast.walk(init):
-        if isinstance(lp, ast.For) and norm(lp.iter) == 'self.handles.items()' \
-                and isinstance(lp.target, ast.Tuple) and len(
-                    lp.target.elts) == 2:
-            kv = [norm(x) for x in lp.target.elts]
-            stmts = [s for s in lp.body]
-            if len(stmts) == 1 and isinstance(stmts[0], ast.Expr) and norm(
-                    stmts[0].value) == \
-                    f'object.__setattr__({sub}, {kv[0]}, {kv[1]})':
-                ok_h = True
+
+    class _One(_D):
+        def for_counts(self, st, node, itersym):
+            return [1]
+    fi = FuncInfo(f.module, None, '__init__', init)
+    w = Walker(program, _One(program))
+    exits = [e for e in w.run(fi, None) if e.kind != 'raise']
+    ok_h = ok_n = bool(exits)
+    for ex in exits:
+        tr = ex.state.trace
+        items = [e for e in tr if e.kind == 'for-item'
+                 and e.sym.text == 'self.handles.items()']
+        sets = [e.sym.node for e in tr if e.kind == 'call' and isinstance(
+            e.sym.node, ast.Call) and norm(e.sym.node.func) in (
+                'object.__setattr__', 'setattr')]
+        good = False
+        for it in items:
+            t = it.target.text
+            if any([norm(a) for a in c.args] == [sub, f'{t}[0]', f'{t}[1]']
+                   for c in sets):
+                good = True
+        if not good:
+            ok_h = False
+        names = [e for e in tr if e.kind == 'store' and e.target is not None
+                 and e.target.text == f'{sub}._handle_names']
+        if len(names) < 1 or norm(names[-1].sym.node) not in (
+                'frozenset(self.handles.keys())', 'frozenset(self.handles)'):
+            ok_n = False
     rep.check(ok_h, rule, site, 'for key, value in self.handles.items(): ...',
               'every visible handle is stored, itself, under its own name',
               'the snapshot does not store, for every (visible) handle of the '
@@ -302,13 +321,7 @@ def check_static_build(program, rep, rule):
               'directly let a shadowed handle win; a pre-loaded value '
               'bypasses the handle and goes stale after clear())',
               line=init.lineno)
-    names = [n for n in ast.walk(init) if isinstance(n, ast.Call)
-             and dotted(n.func) == 'object.__setattr__' and len(n.args) == 3
-             and isinstance(n.args[1], ast.Constant)
-             and n.args[1].value == '_handle_names']
-    ok_n = len(names) == 1 and norm(names[0].args[2]) in (
-        'frozenset(self.handles.keys())', 'frozenset(self.handles)')
-    rep.check(ok_n, rule, site, names[0] if names else '_handle_names',
+    rep.check(ok_n, rule, site, '_handle_names',
               '_handle_names is the set of exactly the handle names',
               '_handle_names is not frozenset(self.handles.keys()): a handle '
               'missing from it is returned uncalled, an extra name is called',
